@@ -16,7 +16,7 @@ func init() {
 	register(&Rule{ID: "C03.R2", Min: 12,
 		Text: "ErrDecimal wrappers agree: each first tests e.Err() and returns untouched on the non-nil edge, calls exactly the Context method of the same name on e.Ctx with its own parameters in order, and hands both results to update; update accumulates Flags with |= and stores err",
 		Run:  ruleErrDecimalWrappers})
-	register(&Rule{ID: "C03.R3", Min: 35,
+	register(&Rule{ID: "C03.R3", Min: 90,
 		Text: "every return of a single-rounding operation goes through the trap filter: (flags, error) pairs come from goError/GoError on those very flags, from a tail call of another operation, are (0, nil), or carry a definitely non-nil error",
 		Run:  ruleReturnIdioms})
 	register(&Rule{ID: "C03.R4", Min: 1,
@@ -391,6 +391,8 @@ var trapFilteredOps = []string{
 	"(*Context).RoundToIntegralValue", "(*Context).RoundToIntegralExact", "(*Context).Reduce", "(*Context).Cmp",
 	"(*Context).quoSpecials", "(*Context).toIntegralSpecials", "(*Context).setAsNaN", "(*Context).Ceil", "(*Context).Floor",
 	"(*Context).SetString",
+	// the composite functions: the flags of their series steps reach the caller through the same filter
+	"(*Context).Sqrt", "(*Context).Cbrt", "(*Context).Ln", "(*Context).Log10", "(*Context).Exp", "(*Context).Pow",
 }
 
 func isErrorType(t types.Type) bool {
@@ -398,11 +400,66 @@ func isErrorType(t types.Type) bool {
 }
 
 func ruleReturnIdioms(w *World, r *RuleResult) {
-	for _, name := range trapFilteredOps {
+	// the listed operations, and the unexported (Condition, error) helpers they
+	// end in by a tail call: such a helper closes the operation in their place
+	work := append([]string{}, trapFilteredOps...)
+	listed := map[string]bool{}
+	for _, n := range work {
+		listed[n] = true
+	}
+	for i := 0; i < len(work); i++ {
+		name := work[i]
 		f := w.fn(name)
 		if f == nil {
-			r.anchorMissing(name)
+			if i < len(trapFilteredOps) {
+				r.anchorMissing(name)
+			}
 			continue
+		}
+		for _, c := range callsIn(f) {
+			call, ok := c.(*ssa.Call)
+			if !ok {
+				continue
+			}
+			g := callee(call)
+			if g == nil || !w.inPkg(g) || g.Object() == nil || g.Object().Exported() || listed[w.shortName(g)] || len(g.Blocks) == 0 || w.isGoErrorCall(call) {
+				continue
+			}
+			gr := g.Signature.Results()
+			if gr.Len() != 2 || !isErrorType(gr.At(1).Type()) || !typeIs(gr.At(0).Type(), apdPath, "Condition") {
+				continue
+			}
+			// is it a tail call: both results returned as they are?
+			tail := false
+			for _, ref := range *call.Referrers() {
+				ex, ok := ref.(*ssa.Extract)
+				if !ok || ex.Referrers() == nil {
+					continue
+				}
+				for _, rr := range *ex.Referrers() {
+					if _, isRet := rr.(*ssa.Return); isRet {
+						tail = true
+					}
+				}
+			}
+			isParser := false
+			for _, pf := range w.parserFuncs() {
+				if pf == g {
+					isParser = true // the parsing step does not trap: C03.R8
+				}
+			}
+			// only helpers that close the operation themselves: one that hands its
+			// parameters back (a common error exit) is judged where it is called
+			closes := false
+			for _, gc := range callsIn(g) {
+				if gcall, ok := gc.(*ssa.Call); ok && w.isGoErrorCall(gcall) {
+					closes = true
+				}
+			}
+			if tail && closes && !isParser && w.shortName(g) != "(*Context).integerPower" {
+				listed[w.shortName(g)] = true
+				work = append(work, w.shortName(g))
+			}
 		}
 		ci := w.condResultIndex(f)
 		res := f.Signature.Results()
@@ -466,6 +523,9 @@ func (w *World) classifyReturn(f *ssa.Function, rt *ssa.Return, cv, ev ssa.Value
 				}
 				if cconst && cbits == 0 && w.definitelyNonNil(ev, rt.Block()) {
 					return true, "(0, non-nil error from " + w.shortName(g) + ")"
+				}
+				if w.definitelyNonNil(ev, rt.Block()) {
+					return true, "flags with the definitely non-nil error of " + w.shortName(g)
 				}
 				return false, "flags and error come from different sources: " + w.exprOf(f, cv).String() + " / " + w.exprOf(f, ev).String()
 			}
